@@ -54,6 +54,7 @@ type StepObs struct {
 	Oracle *Oracle `json:"oracle,omitempty"`  // observed answers of library oracles for this step
 	Post   *Post   `json:"post,omitempty"`    // projected state after the step
 	COracles []*Oracle         `json:"client_oracles,omitempty"` // genesis: oracle answers per listed client
+	ROracles []bool            `json:"relayer_oracles,omitempty"` // genesis: does the relayer's address parse (bech32)
 	Res      map[string]string `json:"res,omitempty"`            // aggregate: set-up addresses substituted into the proposal (hex)
 }
 
